@@ -770,4 +770,16 @@ def pairwise_docs(tokens=False):
                          ('narrative', 'DEBATESECTION\n  SPEECH\n    FROM ~a\n    NARRATIVE ~n %s\n    FOOTNOTE 1\n      ~note\n'),
                          ('summary', 'DEBATESECTION\n  SUMMARY ~s %s\n  FOOTNOTE 1\n    ~note\n')]:
             out.append(('%s/fn-depth%d' % (pn, d), _pw_finish(tmpl.replace('%s', ref), tokens), 'debate' if pn in ('scene', 'narrative', 'summary') else 'act'))
+    # a remark that spans two lines, in every position that holds inline content (the continuation line at the line's own indentation)
+    for pn, tmpl, root in [('para', '~p {{*~a\n~b}} ~q\n', 'act'), ('hierpara', 'SEC 1.\n  ~p {{*~a\n  ~b}} ~q\n', 'act'),
+                           ('heading', 'PART 1\n  SEC 1. - ~H {{*~a\n  ~b}}\n    ~x\n', 'act'), ('subheading', 'SEC 1.\n  SUBHEADING ~S {{*~a\n  ~b}}\n  ~x\n', 'act'),
+                           ('crossheading', 'PART 1\n  CROSSHEADING ~C {{*~a\n  ~b}}\n  SEC 1.\n    ~x\n', 'act'),
+                           ('listintro', 'ITEMS\n  ~intro {{*~a\n  ~b}}\n  ITEM (a)\n    ~x\n', 'act'), ('listwrap', 'ITEMS\n  ITEM (a)\n    ~x\n  ~wrap {{*~a\n  ~b}}\n', 'act'),
+                           ('itempara', 'ITEMS\n  ITEM (a)\n    ~x {{*~a\n    ~b}}\n', 'act'), ('bullet2', 'BULLETS\n  * ~one\n    ~two {{*~a\n    ~b}} ~c\n', 'act'),
+                           ('cell', 'TABLE\n  TR\n    TC\n      ~c {{*~a\n      ~b}}\n', 'act'), ('quote', 'QUOTE\n  ~q {{*~a\n  ~b}}\n', 'act'),
+                           ('footnote', '~x{{FOOTNOTE 1}}\nFOOTNOTE 1\n  ~n {{*~a\n  ~b}}\n', 'act'), ('attpara', '~x\nSCHEDULE ~S\n  ~y {{*~a\n  ~b}}\n', 'act'),
+                           ('from', 'DEBATESECTION\n  SPEECH\n    FROM ~who {{*~a\n    ~b}}\n    ~x\n', 'debate'), ('scene', 'DEBATESECTION\n  SCENE ~s {{*~a\n  ~b}}\n', 'debate'),
+                           ('speechpara', 'DEBATESECTION\n  SPEECH\n    FROM ~who\n    ~x {{*~a\n    ~b}}\n', 'debate'),
+                           ('nested', 'SEC 1.\n  ~p **{{^{{*~a\n  ~b}}}}** ~q\n', 'act')]:
+        out.append(('%s/remark2' % pn, _pw_finish(tmpl, tokens), root))
     return out
